@@ -27,17 +27,35 @@ The program space is a union of complete products (all enumerated completely, se
               alphabet for <= NN parameters x every (kind sequence, defaults)
               pattern x {all annotated, none annotated} x 4 function names x
               return annotation x typechecker (plain def);
-  P  property: getter/setter programs (setter parameter name from the alphabet).
+  P  property: getter/setter programs (setter parameter name from the alphabet);
+  W  wrapped : WHAT IS DECORATED is a callable produced by a common signature-preserving
+              wrapper around a generated function `inner` (a functools.wraps function wrapper,
+              the same installed as a method, a callable instance with __wrapped__
+              (functools.update_wrapper), functools.partial objects (nothing bound / first
+              positional bound), a bound-method object) x `inner` raw or ALREADY jaxtyped
+              (same typechecker object, the other typechecker, typechecker=None) x callable
+              kind x every signature shape with <= WN parameters (WN+1 for the TOP
+              combinations) x return annotation x typechecker.  Reference = the undecorated
+              wrapper object; the wrapper's own body carries a second recorder;
+  I  in-flight: TWO calls in flight at the same time on one thread: callable kinds
+              {coroutine function, generator function, def} pairwise (the same decorated
+              function twice, or two functions), bodies with k suspension points
+              (`await` / `yield`), the two calls binding the SAME axis name to DIFFERENT
+              sizes; EVERY interleaving of the two step sequences (call, k+1 resumptions
+              driven by hand with next(); no event loop, no timing) x every combination
+              of endings {return, raise, close() while suspended}.  Reference = the same
+              schedule on the undecorated functions, compared step by step.
 
-  quick:    N = 3, NN = 2; the 2-name tuples are "lite": all annotated only, ONE
+  quick:    N = 3, NN = 2, WN = 1, k = 1; the 2-name tuples are "lite": all annotated only, ONE
             ill-typed list (wrong rank at the last parameter), raising body mode
             on the first binding recipe only.
-  thorough: N = 4, NN = 3; 1- and 2-name tuples in full; the 3-name tuples are
+  thorough: N = 4, NN = 3, WN = 2, k in {1, 2} (I also for methods); 1- and 2-name tuples in full; the 3-name tuples are
             "lite" as above, with return annotation only, and drawn from the pool
             without y / memos / bound.
 """
 from __future__ import annotations
 
+import functools
 import inspect
 import itertools
 import json
@@ -72,6 +90,23 @@ VARIANTS_TOP_THOROUGH = (
     ("lambda_plain", "plain"),
 )
 TCS = ("typeguard", "beartype")
+
+# family W: what is decorated is a signature-preserving wrapper around `inner`
+W_CARRIERS = ("wraps", "wraps-method", "instance", "partial", "partial-pos", "boundmethod")
+W_KINDS = ("def", "async", "gen", "lambda_ann")
+W_PRE = ("raw", "jt-same", "jt-other", "jt-none")
+W_TOP = (("wraps", "def"), ("wraps", "async"))
+# family I: two calls in flight; (kind of call A, kind of call B, same decorated function?)
+I_PAIRS = (
+    ("async", "async", 1),
+    ("async", "async", 0),
+    ("gen", "gen", 1),
+    ("gen", "gen", 0),
+    ("async", "gen", 0),
+    ("async", "def", 0),
+    ("gen", "def", 0),
+)
+I_SIZES = {"A": 2, "B": 3}
 MAX_KEEP_PER_KEY = 2  # violations kept per key per shard (all instances are counted)
 
 
@@ -112,7 +147,29 @@ def resolve_names(fname, own=True):
 
 
 def bounds(tier):
-    return dict(N=3, NN=2) if tier == "quick" else dict(N=4, NN=3)
+    if tier == "quick":
+        return dict(N=3, NN=2, WN=1, IK=(1,), IDESC=("plain",))
+    return dict(N=4, NN=3, WN=2, IK=(1, 2), IDESC=("plain", "method"))
+
+
+def wrap_ok(carrier, pre, ck, ret, params):
+    """Which (carrier, pre-decoration, kind, signature) combinations exist in family W."""
+    if ck == "lambda_ann" and not (any(p[3] for p in params) or ret):
+        return False  # a lambda without annotations: nothing to wrap
+    if ck == "async" and ret and (carrier == "instance" or (pre != "raw" and carrier in ("boundmethod", "partial", "partial-pos"))):
+        # the object handed to jaxtyped is NOT a coroutine function (inspect.iscoroutinefunction
+        # is False for a plain __call__ and for the jaxtyped wrapper of a coroutine function, hence
+        # for its bound-method / partial object) yet hands out a coroutine: its result does not
+        # satisfy a return annotation describing the awaited value - outside the statement.
+        # (Observed on the unchanged tree: such a call raises TypeCheckError; see the notes.)
+        return False
+    if carrier == "partial-pos" and not (params and params[0][0] in ("PO", "PK")):
+        return False
+    if pre == "jt-none" and ck == "gen":
+        # jaxtyped(typechecker=None) on a generator function makes the (process-wide, cached)
+        # annotation class transparent - known finding of C12; it would poison this worker
+        return False
+    return True
 
 
 def iter_programs(tier):
@@ -166,6 +223,32 @@ def iter_programs(tier):
                     for sret in (0, 1):
                         for tc in TCS:
                             yield ("prop", fname, tc, gret, sname, sann, sret)
+    # ---- W: wrapped callables
+    WN = b["WN"]
+    for n in range(WN + 2):
+        full = n <= WN
+        for ks, ds in pats[n]:
+            for an in itertools.product((0, 1), repeat=n):
+                params = tuple(zip(ks, CANON[:n], ds, an))
+                for ret in (0, 1):
+                    for carrier in W_CARRIERS:
+                        for ck in W_KINDS:
+                            if not full and (carrier, ck) not in W_TOP:
+                                continue
+                            for pre in W_PRE:
+                                if not wrap_ok(carrier, pre, ck, ret, params):
+                                    continue
+                                for tc in TCS:
+                                    yield ("wrap", carrier, pre, ck, ret, tc, params, 0 if full else 1)
+    # ---- I: two calls in flight
+    for tc in TCS:
+        for ka, kb, shared in I_PAIRS:
+            for desc in b["IDESC"]:
+                for ks, ds in pats[1]:
+                    for an in (0, 1):
+                        for ret in (0, 1):
+                            for k in b["IK"]:
+                                yield ("ilv", tc, ka, kb, shared, desc, (ks[0], "x", ds[0], an), ret, k)
 
 
 # ------------------------------------------------------------------ call catalogue
@@ -319,6 +402,7 @@ class _Rec:
 
     def start(self, mode):
         self.calls = []
+        self.outer = []  # family W: executions of the WRAPPER's own body, (args, kwargs)
         self.mode = mode
         self.res = None
         self.exc = None
@@ -350,7 +434,53 @@ def params_source(params, first=None):
     return ", ".join(pieces)
 
 
+_W_HOW = {
+    "wraps": "W = functools.wraps(inner)(<[async] def w(*args, **kwargs): _O_(args, kwargs); return [await] inner(*args, **kwargs)>)",
+    "wraps-method": "C.w = W = functools.wraps(inner)(<[async] def w(*args, **kwargs): _O_(args, kwargs); return [await] inner(*args, **kwargs)>)  # called as C().w(...)",
+    "instance": "W = <instance with __call__(self, *args, **kwargs): _O_(args, kwargs); return inner(*args, **kwargs)>; functools.update_wrapper(W, inner)",
+    "partial": "W = functools.partial(inner)",
+    "partial-pos": "W = functools.partial(inner, <well-typed array>)",
+    "boundmethod": "C.m = inner; W = C().m  # the bound-method object",
+}
+_W_PRE = {"raw": "{f}", "jt-same": "jaxtyped(typechecker={tc})({f})", "jt-other": "jaxtyped(typechecker={other})({f})", "jt-none": "jaxtyped(typechecker=None)({f})"}
+
+
+def other_tc(tc):
+    return TCS[1 - TCS.index(tc)]
+
+
+def ilv_source(fname, ck, desc, ret, params, k):
+    first = "self" if desc == "method" else None
+    ind = "" if desc == "plain" else "    "
+    head = "async def" if ck == "async" else "def"
+    lines = [f"{ind}{head} {fname}({params_source(params, first)}){' -> _RA_' if ret else ''}:", f"{ind}    'the doc'", f"{ind}    _t_ = _R_(locals())"]
+    if ck == "async":
+        lines += [f"{ind}    await _t_.pause()"] * k
+    elif ck == "gen":
+        lines += [f"{ind}    yield _t_.item()"] * k
+    lines.append(f"{ind}    return _t_.finish()")
+    src = "\n".join(lines) + "\n"
+    if desc != "plain":
+        src = "class C:\n" + src
+    return src
+
+
 def program_source(spec):
+    if spec[0] == "wrap":
+        _, carrier, pre, ck, ret, tc, params = spec[:7]
+        idesc = "method" if carrier in ("wraps-method", "boundmethod") else "plain"
+        f = ("C." if idesc == "method" else "") + ("_L_" if ck.startswith("lambda") else "f")
+        return (
+            program_source(("fn", "f", ck, idesc, ret, tc, params, 0))
+            + "inner = " + _W_PRE[pre].format(f=f, tc=tc, other=other_tc(tc)) + "\n"
+            + _W_HOW[carrier] + "\n"
+        )
+    if spec[0] == "ilv":
+        _, tc, ka, kb, shared, desc, param, ret, k = spec
+        src = ilv_source("f", ka, desc, ret, (tuple(param),), k)
+        if shared:
+            return src + "# call A and call B are two calls of the same decorated f\n"
+        return src + ilv_source("g", kb, desc, ret, (tuple(param),), k) + "# call A is a call of f, call B a call of g\n"
     if spec[0] == "prop":
         _, fname, tc, gret, sname, sann, sret = spec
         return (
@@ -438,6 +568,229 @@ class _Program:
             return self.raw if which == "orig" else self.dec
         holder = self.cls if access == "cls" else self.inst
         return getattr(holder, self.attr if which == "orig" else "_dec_")
+
+
+class _CallableInstance:
+    """A callable object that wraps `fn` the way class-based decorators do."""
+
+    def __init__(self, fn, rec):
+        functools.update_wrapper(self, fn)
+        self._fn_ = fn
+        self._rec_ = rec
+
+    def __call__(self, *args, **kwargs):
+        self._rec_.outer.append((args, kwargs))
+        return self._fn_(*args, **kwargs)
+
+
+class _WrapProgram:
+    """Family W: the callable handed to jaxtyped is a signature-preserving wrapper W around a
+    generated function `inner` (possibly already jaxtyped).  The reference is W itself."""
+
+    family = "fn"
+    wrapped = True
+
+    def __init__(self, env, spec):
+        self.env = env
+        self.spec = spec
+        _, self.carrier, self.pre, self.ck, self.ret, self.tc, inner_params, lite = spec
+        self.lite = bool(lite)
+        self.fname = "f"
+        self.desc = "method" if self.carrier == "wraps-method" else "plain"
+        idesc = "method" if self.carrier in ("wraps-method", "boundmethod") else "plain"
+        self.base = _Program(env, ("fn", "f", self.ck, idesc, self.ret, self.tc, inner_params, 0))
+        self.rec = self.base.rec
+        self.cls, self.inst = self.base.cls, self.base.inst
+        self.params = inner_params[1:] if self.carrier == "partial-pos" else inner_params
+        self.src = program_source(spec)
+        self.attr = "_w_"
+        self.has_outer = self.carrier in ("wraps", "wraps-method", "instance")
+        self.pre_error = None
+        self.raw = None
+        self.dec = None
+        inner = self.base.raw
+        if self.pre != "raw":
+            tc = {"jt-same": env.tcs[self.tc], "jt-other": env.tcs[other_tc(self.tc)], "jt-none": None}[self.pre]
+            try:
+                inner = env.jaxtyped(typechecker=tc)(inner)
+            except Exception as e:  # noqa: BLE001 - the code under test; reported by decorate()
+                self.pre_error = e
+                return
+        rec = self.rec
+        c = self.carrier
+        if c in ("wraps", "wraps-method"):
+            if self.ck == "async":
+
+                @functools.wraps(inner)
+                async def w(*args, **kwargs):
+                    rec.outer.append((args, kwargs))
+                    return await inner(*args, **kwargs)
+
+            else:
+
+                @functools.wraps(inner)
+                def w(*args, **kwargs):
+                    rec.outer.append((args, kwargs))
+                    return inner(*args, **kwargs)
+
+            self.raw = w
+            if c == "wraps-method":
+                setattr(self.cls, "_w_", w)
+        elif c == "instance":
+            self.raw = _CallableInstance(inner, rec)
+        elif c == "partial":
+            self.raw = functools.partial(inner)
+        elif c == "partial-pos":
+            self.raw = functools.partial(inner, env.good())
+        elif c == "boundmethod":
+            setattr(self.cls, "_m_", inner)
+            self.raw = getattr(self.inst, "_m_")
+        else:
+            raise common.HarnessError(f"unknown carrier {c}")
+        # the signature the wrapper exposes must be the one the call catalogue assumes
+        try:
+            sig = inspect.signature(self.get("orig", self.accesses()[0]))
+        except Exception as e:  # noqa: BLE001
+            raise common.HarnessError(f"inspect.signature of the wrapper failed: {e!r}\n{self.src}")
+        kmap = {"POSITIONAL_ONLY": "PO", "POSITIONAL_OR_KEYWORD": "PK", "VAR_POSITIONAL": "VP", "KEYWORD_ONLY": "KO", "VAR_KEYWORD": "VK"}
+        seen = tuple((kmap[q.kind.name], q.name, int(q.default is not q.empty), int(q.annotation is not q.empty)) for q in sig.parameters.values())
+        if seen != tuple(self.params) and self.pre == "raw":
+            raise common.HarnessError(f"wrapper exposes {seen}, expected {self.params}\n{self.src}")
+
+    def decorate(self):
+        if self.pre_error is not None:
+            raise self.pre_error
+        self.dec = self.env.jaxtyped(typechecker=self.env.tcs[self.tc])(self.raw)
+        if self.carrier == "wraps-method":
+            setattr(self.cls, "_dec_", self.dec)
+
+    def accesses(self):
+        return ("inst",) if self.carrier == "wraps-method" else ("direct",)
+
+    def get(self, which, access):
+        if access == "direct":
+            return self.raw if which == "orig" else self.dec
+        return getattr(self.inst, "_w_" if which == "orig" else "_dec_")
+
+
+class _Pause:
+    """An awaitable that suspends the awaiting coroutine exactly once."""
+
+    def __await__(self):
+        yield self
+
+
+class _Tok:
+    """Per-call token of family I: what the body of ONE in-flight call did and handed out."""
+
+    def __init__(self, rec, label, size, ending):
+        self.rec, self.label, self.size, self.ending = rec, label, size, ending
+        self.starts = []
+        self.yielded = []
+        self.res = None
+        self.exc = None
+
+    def pause(self):
+        m = _Pause()
+        self.yielded.append(m)
+        self.rec.events.append((self.label, "pause"))
+        return m
+
+    def item(self):
+        d = self.rec.duck((self.size,))
+        self.yielded.append(d)
+        self.rec.events.append((self.label, "yield"))
+        return d
+
+    def finish(self):
+        self.rec.events.append((self.label, "finish"))
+        if self.ending == "raise":
+            self.exc = ValueError(f"C07 body exception of call {self.label}")
+            raise self.exc
+        self.res = self.rec.duck((self.size,))
+        return self.res
+
+
+class _IRec:
+    """Body-side recorder of family I.  A body only ever runs inside a step of its own call
+    (single thread, coroutines driven by hand), so `current` identifies the call."""
+
+    def __init__(self, duck):
+        self.duck = duck
+        self.begin(("ret", "ret"))
+
+    def begin(self, ends):
+        self.events = []
+        self.current = None
+        self.toks = {lab: _Tok(self, lab, I_SIZES[lab], e) for lab, e in zip("AB", ends)}
+        return self.toks
+
+    def __call__(self, loc):
+        tok = self.toks[self.current]
+        tok.starts.append(loc)
+        self.events.append((self.current, "start"))
+        return tok
+
+
+class _IlvProgram:
+    """Family I: one or two generated functions, two calls in flight."""
+
+    family = "ilv"
+
+    def __init__(self, env, spec):
+        self.env = env
+        self.spec = spec
+        _, self.tc, ka, kb, shared, self.desc, param, self.ret, self.k = spec
+        self.kinds = {"A": ka, "B": kb}
+        self.shared = bool(shared)
+        self.params = (tuple(param),)
+        self.rec = _IRec(env.Duck)
+        self.src = program_source(spec)
+        self.raw, self.inst, self.cls = {}, {}, {}
+        for lab, fname, ck in (("A", "f", ka), ("B", "g", kb)):
+            if lab == "B" and self.shared:
+                self.raw["B"], self.inst["B"], self.cls["B"] = self.raw["A"], self.inst["A"], self.cls["A"]
+                continue
+            scope = {"__name__": "c07gen", "_A_": env.A, "_R_": self.rec, "_RA_": env.ItA if ck == "gen" else env.A, "_D0_": env.good()}
+            try:
+                exec(compile(ilv_source(fname, ck, self.desc, self.ret, self.params, self.k), "<c07gen>", "exec"), scope)
+            except Exception as e:  # noqa: BLE001
+                raise common.HarnessError(f"generated program does not compile: {e!r}\n{self.src}")
+            if self.desc == "plain":
+                self.raw[lab], self.cls[lab], self.inst[lab] = scope[fname], None, None
+            else:
+                self.cls[lab] = scope["C"]
+                self.inst[lab] = scope["C"]()
+                self.raw[lab] = scope["C"].__dict__[fname]
+        self.dec = {}
+
+    def decorate(self):
+        j = self.env.jaxtyped(typechecker=self.env.tcs[self.tc])
+        self.dec["A"] = j(self.raw["A"])
+        self.dec["B"] = self.dec["A"] if self.shared else j(self.raw["B"])
+        for lab in "AB":
+            if self.cls[lab] is not None:
+                setattr(self.cls[lab], "_dec_", self.dec[lab])
+
+    def get(self, which, lab):
+        if self.desc == "plain":
+            return self.raw[lab] if which == "orig" else self.dec[lab]
+        return getattr(self.inst[lab], self.raw[lab].__name__ if which == "orig" else "_dec_")
+
+    def call_args(self, lab):
+        k, name = self.params[0][0], self.params[0][1]
+        v = self.env.Duck((I_SIZES[lab],))
+        if k in ("PO", "PK", "VP"):
+            return (v,), {}
+        return (), {name if k == "KO" else "zz": v}
+
+
+def make_program(env, spec):
+    if spec[0] == "wrap":
+        return _WrapProgram(env, spec)
+    if spec[0] == "ilv":
+        return _IlvProgram(env, spec)
+    return _Program(env, spec)
 
 
 # ------------------------------------------------------------------ one case
@@ -564,6 +917,12 @@ def check_case(env, prog, case):
         return _check_static(env, prog)
     if prog.family == "prop":
         return _check_prop_case(env, prog, case)
+    if prog.family == "ilv":
+        return _check_ilv_case(env, prog, case)
+    wrapped = getattr(prog, "wrapped", False)
+    # family W with an inner function that is itself jaxtyped: the REFERENCE contains code under
+    # test; when it misbehaves the case is skipped (the inner decoration is judged by family A)
+    soft_ref = wrapped and prog.pre != "raw"
     access = case["access"]
     f_o, f_d = prog.get("orig", access), prog.get("dec", access)
     recipe = tuple(case["recipe"])
@@ -576,11 +935,18 @@ def check_case(env, prog, case):
         ok = len(lo) == 1 and (
             (mode == "ret" and ro[1] == "ret" and result_is(prog, ro[2], rec.res)) or (mode == "raise" and ro[1] == "exc" and ro[2] is rec.exc)
         )
+        oo = rec.outer
+        if wrapped and prog.has_outer and len(oo) != 1:
+            ok = False
         if not ok:
+            if soft_ref:
+                case["_skipped"] = True
+                return None
             raise common.HarnessError(f"reference call misbehaved: {ro!r} calls={len(lo)}\n{prog.src}\n{case}")
         rec.start(mode)
         rd = run_call(prog, f_d, args, dict(kwargs))
         ld = rec.calls
+        od = rec.outer
         if rd[1] == "exc" and not (mode == "raise" and rd[2] is rec.exc):
             e = rd[2]
             if (
@@ -601,6 +967,12 @@ def check_case(env, prog, case):
             return ("welltyped-call-wrong-protocol", rd[2])
         if len(ld) != 1:
             return (f"body-ran-{len(ld)}-times", f"body executions: {len(ld)}")
+        if wrapped and prog.has_outer:
+            if len(od) != 1:
+                return (f"body-ran-{len(od)}-times", f"executions of the decorated wrapper's own body: {len(od)}")
+            (ao, ko), (ad, kd) = oo[0], od[0]
+            if len(ao) != len(ad) or any(a is not b for a, b in zip(ao, ad)) or set(ko) != set(kd) or any(kd[q] is not ko[q] for q in ko):
+                return ("argument-identity", "the decorated wrapper's own body received different objects")
         diff = same_locals(prog, lo[0], ld[0])
         if diff:
             return ("argument-identity", diff)
@@ -613,7 +985,10 @@ def check_case(env, prog, case):
         args, kwargs = build_call(env, prog, recipe, extra=case["extra"])
         rec.start("ret")
         ro = run_call(prog, f_o, args, dict(kwargs))
-        if not (ro[0] == "call" and ro[1] == "exc" and type(ro[2]) is TypeError and not rec.calls):
+        if not ((ro[0] == "call" or wrapped) and ro[1] == "exc" and type(ro[2]) is TypeError and not rec.calls):
+            if soft_ref:
+                case["_skipped"] = True
+                return None
             raise common.HarnessError(f"reference accepted a non-binding list: {ro!r}\n{prog.src}\n{case}")
         rec.start("ret")
         rd = run_call(prog, f_d, args, dict(kwargs))
@@ -630,11 +1005,150 @@ def check_case(env, prog, case):
         rd = run_call(prog, f_d, args, dict(kwargs))
         if rec.calls:
             return ("illtyped-body-ran", f"{case['label']}: body executions {len(rec.calls)}")
+        if rec.outer:
+            return ("illtyped-body-ran", f"{case['label']}: the body of the decorated wrapper ran {len(rec.outer)}x (the wrapped function's body 0x)")
         if rd[1] != "exc":
             return ("illtyped-no-exception", f"{case['label']}: call returned without running the body")
         case["_exc"] = type(rd[2]).__name__
         return None
     raise common.HarnessError(f"unknown case kind {kind}")
+
+
+def _ilv_norm(oc, tok):
+    kind, v = oc
+    if kind == "yield":
+        for i, y in enumerate(tok.yielded):
+            if y is v:
+                return ("yield", i)
+        return ("yield", f"foreign {type(v).__name__}")
+    if kind == "ret":
+        return ("ret", "the body's result object" if (tok.res is not None and v is tok.res) else f"foreign {type(v).__name__}")
+    if kind == "exc":
+        return ("exc", "the body's exception object") if (tok.exc is not None and v is tok.exc) else ("exc", type(v).__name__, str(v)[:200])
+    return (kind, v)
+
+
+def _ilv_run(prog, which, case, argsets, ref=None):
+    """Execute one schedule on the undecorated (which='orig') or decorated functions.
+    -> (trace, tokens); trace[i] = (call label, normalised outcome, body events of the step).
+    With `ref` given the run stops at the first step that differs from ref."""
+    rec = prog.rec
+    toks = rec.begin(case["ends"])
+    ends = dict(zip("AB", case["ends"]))
+    st = {lab: dict(called=False, driver=None, obj=None, sent=0, dead=False) for lab in "AB"}
+    trace = []
+    try:
+        for i, lab in enumerate(case["sched"]):
+            rec.current = lab
+            ev0 = len(rec.events)
+            s, kind = st[lab], prog.kinds[lab]
+            if not s["called"]:
+                s["called"] = True
+                args, kwargs = argsets[lab]
+                try:
+                    out = prog.get(which, lab)(*args, **dict(kwargs))
+                except Exception as e:  # noqa: BLE001
+                    oc, s["dead"] = ("exc", e), True
+                else:
+                    if kind == "def":
+                        oc, s["dead"] = ("ret", out), True
+                    else:
+                        try:
+                            s["driver"] = out.__await__() if kind == "async" else iter(out)
+                            s["obj"] = out
+                            oc = ("created", None)
+                        except (AttributeError, TypeError):
+                            oc, s["dead"] = ("not-awaitable" if kind == "async" else "not-iterable", type(out).__name__), True
+            elif s["dead"]:
+                oc = ("already-finished", None)
+            else:
+                s["sent"] += 1
+                if s["sent"] == prog.k + 1 and ends[lab] == "close":
+                    s["dead"] = True
+                    closer = getattr(s["driver"], "close", None) or getattr(s["obj"], "close", None)
+                    try:
+                        if closer is not None:
+                            closer()
+                        oc = ("closed", None)
+                    except Exception as e:  # noqa: BLE001
+                        oc = ("exc", e)
+                else:
+                    try:
+                        oc = ("yield", next(s["driver"]))
+                    except StopIteration as e:
+                        oc, s["dead"] = ("ret", e.value), True
+                    except Exception as e:  # noqa: BLE001
+                        oc, s["dead"] = ("exc", e), True
+            trace.append((lab, _ilv_norm(oc, toks[lab]), tuple(rec.events[ev0:])))
+            if ref is not None and trace[i] != ref[i]:
+                break
+    finally:
+        rec.current = None
+        for s in st.values():
+            for o in (s["driver"], s["obj"]):
+                try:
+                    o.close()
+                except Exception:  # noqa: BLE001
+                    pass
+    return trace, toks
+
+
+def _ilv_expected(prog, case):
+    """What the schedule does on the undecorated functions, by construction of the bodies."""
+    ends = dict(zip("AB", case["ends"]))
+    n = {"A": 0, "B": 0}
+    out = []
+    fin = {"ret": ("ret", "the body's result object"), "raise": ("exc", "the body's exception object")}
+    for lab in case["sched"]:
+        kind, k = prog.kinds[lab], prog.k
+        j = n[lab]
+        n[lab] += 1
+        word = "pause" if kind == "async" else "yield"
+        if kind == "def":
+            out.append((lab, fin[ends[lab]], ((lab, "start"), (lab, "finish"))))
+        elif j == 0:
+            out.append((lab, ("created", None), ()))
+        elif j == k + 1 and ends[lab] == "close":
+            out.append((lab, ("closed", None), ()))
+        elif j == k + 1:
+            out.append((lab, fin[ends[lab]], ((lab, "finish"),)))
+        else:
+            out.append((lab, ("yield", j - 1), (((lab, "start"),) if j == 1 else ()) + ((lab, word),)))
+    return out
+
+
+def _check_ilv_case(env, prog, case):
+    argsets = {lab: prog.call_args(lab) for lab in "AB"}
+    ref, rtoks = _ilv_run(prog, "orig", case, argsets)
+    if ref != _ilv_expected(prog, case):
+        raise common.HarnessError(f"reference schedule misbehaved: {ref!r}\n{prog.src}\n{case}")
+    rstarts = {lab: list(rtoks[lab].starts) for lab in "AB"}
+    got, dtoks = _ilv_run(prog, "dec", case, argsets, ref=ref)
+    for i, (r, d) in enumerate(zip(ref, got)):
+        if r == d:
+            continue
+        lab = d[0]
+        where = f"step {i} of schedule {case['sched']} ({'call' if case['sched'][:i].count(lab) == 0 else 'resumption'} of call {lab}, a {prog.kinds[lab]})"
+        if d[1][0] == "exc" and len(d[1]) == 3:
+            return (f"welltyped-call-raised-{d[1][1]}", f"{where}: {d[1][1]}: {d[1][2]!r}; the undecorated functions: {r[1]}")
+        if r[1][0] == "ret" and d[1][0] == "ret":
+            return ("result-identity", f"{where}: handed back a {d[1][1]}")
+        if r[1][0] == "exc" and d[1][0] == "ret":
+            return ("exception-swallowed", f"{where}: body raised but the call finished with a result")
+        if r[1] == d[1]:
+            return ("body-events-differ", f"{where}: body events {list(d[2])}, undecorated {list(r[2])}")
+        return ("step-outcome-differs", f"{where}: {d[1]} with body events {list(d[2])}; undecorated: {r[1]} with {list(r[2])}")
+    for lab in "AB":
+        lo, ld = rstarts[lab], dtoks[lab].starts
+        if len(lo) != len(ld):
+            return (f"body-ran-{len(ld)}-times", f"call {lab}: body executions {len(ld)}, undecorated {len(lo)}")
+        for a, b in zip(lo, ld):
+            a = {q: v for q, v in a.items() if q != "self"}
+            b = {q: v for q, v in b.items() if q != "self"}
+            diff = same_locals(prog, a, b)
+            if diff:
+                return ("argument-identity", f"call {lab}: {diff}")
+    return None
 
 
 _ATTRS = ("__name__", "__qualname__", "__doc__", "__module__")
@@ -643,6 +1157,8 @@ _ATTRS = ("__name__", "__qualname__", "__doc__", "__module__")
 def _cmp_functions(fo, fd, label):
     for a in _ATTRS:
         vo, vd = getattr(fo, a, "<missing>"), getattr(fd, a, "<missing>")
+        if vo == "<missing>":
+            continue  # nothing to keep (e.g. a functools.partial object has no __name__)
         if vo != vd:
             return (f"attr-{a}", f"{label}: {a}={vd!r}, original {vo!r}")
     try:
@@ -741,6 +1257,9 @@ def _check_prop_case(env, prog, case):
 
 def program_cases(prog):
     """The complete case list of one (successfully decorated) program."""
+    if prog.family == "ilv":
+        yield from ilv_cases(prog)
+        return
     yield dict(kind="static")
     if prog.family == "prop":
         for op in ("get", "set"):
@@ -767,14 +1286,40 @@ def program_cases(prog):
             yield dict(kind="ill", access=access, recipe=list(rc), bad={str(k): v for k, v in bad.items()}, label=label)
 
 
+def ilv_schedules(na, nb):
+    """Every interleaving of na steps of call A with nb steps of call B."""
+    out = []
+    for pos in itertools.combinations(range(na + nb), na):
+        s = ["B"] * (na + nb)
+        for i in pos:
+            s[i] = "A"
+        out.append("".join(s))
+    return out
+
+
+def ilv_cases(prog):
+    n = {lab: 1 if prog.kinds[lab] == "def" else prog.k + 2 for lab in "AB"}
+    ends = {lab: ("ret", "raise") if prog.kinds[lab] == "def" else ("ret", "raise", "close") for lab in "AB"}
+    scheds = ilv_schedules(n["A"], n["B"])
+    for ea in ends["A"]:
+        for eb in ends["B"]:
+            for sc in scheds:
+                yield dict(kind="ilv", ends=[ea, eb], sched=sc)
+
+
 # ------------------------------------------------------------------ classification
+
+
+_CK_LABEL = {"def": "def", "async": "async-def", "gen": "generator-def", "lambda_ann": "lambda", "lambda_plain": "lambda"}
 
 
 def ck_label(prog_or_spec):
     spec = prog_or_spec.spec if isinstance(prog_or_spec, _Program) else prog_or_spec
     if spec[0] == "prop":
         return "property"
-    return {"def": "def", "async": "async-def", "gen": "generator-def", "lambda_ann": "lambda", "lambda_plain": "lambda"}[spec[2]]
+    if spec[0] == "wrap":
+        return _CK_LABEL[spec[3]]
+    return _CK_LABEL[spec[2]]
 
 
 def make_key(spec, symptom):
@@ -788,14 +1333,18 @@ def make_key(spec, symptom):
         return "C07:async-def:return-annotation-checked-against-coroutine"
     if symptom == "posonly-name-reused-in-kwargs:bind-TypeError":
         return "C07:posonly-name-reused-in-kwargs:bind-TypeError"
+    if spec[0] == "ilv":
+        return f"C07:in-flight:{_CK_LABEL[spec[2]]}+{_CK_LABEL[spec[3]]}:{symptom}"
+    if spec[0] == "wrap":
+        return f"C07:wrapped:{spec[1]}:{spec[2]}:{lab}:{symptom}"
     desc = "property" if spec[0] == "prop" else spec[3]
     return f"C07:{lab}:{desc}:{symptom}"
 
 
 def is_nontrivial(spec, case):
-    if case["kind"] in ("nonbind", "ill"):
+    if case["kind"] in ("nonbind", "ill", "ilv"):
         return True
-    if spec[0] == "prop":
+    if spec[0] in ("prop", "wrap", "ilv"):
         return True
     _, fname, ck, desc, ret, tc, params = spec[:7]
     if case["kind"] == "static":
@@ -810,57 +1359,70 @@ def is_nontrivial(spec, case):
 
 
 def spec_json(spec):
-    if spec[0] == "prop":
-        return list(spec)
-    return list(spec[:6]) + [[list(p) for p in spec[6]]] + list(spec[7:])
+    return [spec_json(x) if isinstance(x, (tuple, list)) else x for x in spec]
 
 
 def spec_from_json(js):
-    if js[0] == "prop":
-        return tuple(js)
-    return tuple(js[:6]) + (tuple(tuple(p) for p in js[6]),) + tuple(js[7:])
+    return tuple(spec_from_json(x) if isinstance(x, (tuple, list)) else x for x in js)
+
+
+def spec_tc(spec):
+    return spec[{"prop": 2, "ilv": 1}.get(spec[0], 5)]
 
 
 def describe(spec, case):
     s = program_source(spec).rstrip("\n")
-    tc = spec[2] if spec[0] == "prop" else spec[5]
+    tc = spec_tc(spec)
     return f"jaxtyped(typechecker={tc}) on\n{s}\n  case={ {k: v for k, v in case.items() if not k.startswith('_')} }"
 
 
 # ------------------------------------------------------------------ shard worker
 
 
+def partial_dontcare(spec, e):
+    """Don't-care: jaxtyped refusing a functools.partial OBJECT at decoration time with a
+    TypeError.  A partial object has no __annotations__ of its own (typing.get_type_hints
+    rejects it), so the statement's 'every annotated callable' does not clearly include it.
+    When decoration succeeds, every call case is judged like for any other callable."""
+    return spec[0] == "wrap" and spec[1] in ("partial", "partial-pos") and type(e) is TypeError
+
+
 def eval_program(env, spec, stats, on_violation, samples=None):
-    prog = _Program(env, spec)
+    prog = make_program(env, spec)
     stats["programs"] += 1
     stats["evaluations"] += 1
     try:
         prog.decorate()
     except Exception as e:  # noqa: BLE001
-        stats["decoration_failures"] += 1
         stats["nontrivial"] += 1
+        if partial_dontcare(spec, e):
+            stats["partial_objects_rejected_at_decoration"] += 1
+            return
+        stats["decoration_failures"] += 1
         on_violation(spec, dict(kind="decorate"), f"decoration-{type(e).__name__}", _exc_text(e))
         return
-    stats["nontrivial"] += 1 if (spec[0] == "prop" or spec[2] != "def" or spec[3] != "plain" or spec[6]) else 0
+    stats["nontrivial"] += 1 if (spec[0] != "fn" or spec[2] != "def" or spec[3] != "plain" or spec[6]) else 0
     for case in program_cases(prog):
         stats["evaluations"] += 1
         stats["cases_" + case["kind"]] += 1
         if is_nontrivial(spec, case):
             stats["nontrivial"] += 1
         bad = check_case(env, prog, case)
+        if case.get("_skipped"):
+            stats["wrapped_reference_skipped"] += 1
         if case["kind"] == "ill" and bad is None:
             k = "illtyped_exc_" + case.get("_exc", "?")
             stats[k] = stats.get(k, 0) + 1
         if bad is not None:
             on_violation(spec, case, bad[0], bad[1])
         elif samples is not None and len(samples) < 4 and case["kind"] != "static" and stats["evaluations"] % 97 == 0:
-            samples.append(dict(program=program_source(spec), typechecker=spec[2] if spec[0] == "prop" else spec[5], case={k: v for k, v in case.items() if not k.startswith("_")}, verdict="indistinguishable from the undecorated callable" if case["kind"] == "bind" else "rejected, body not run"))
+            samples.append(dict(program=program_source(spec), typechecker=spec_tc(spec), case={k: v for k, v in case.items() if not k.startswith("_")}, verdict="indistinguishable from the undecorated callable" if case["kind"] in ("bind", "ilv") else "rejected, body not run"))
 
 
 def _run_shard(job):
     env = _Env()
     tier, shard, nshards = job["tier"], job["shard"], job["nshards"]
-    stats = dict(programs=0, evaluations=0, nontrivial=0, decoration_failures=0, cases_static=0, cases_bind=0, cases_nonbind=0, cases_ill=0, space_total=0)
+    stats = dict(programs=0, evaluations=0, nontrivial=0, decoration_failures=0, cases_static=0, cases_bind=0, cases_nonbind=0, cases_ill=0, cases_ilv=0, wrapped_reference_skipped=0, partial_objects_rejected_at_decoration=0, space_total=0)
     per_key = {}
     kept = []
     samples = []
@@ -883,7 +1445,14 @@ def _run_shard(job):
         stats["space_total"] += 1
         if i % nshards != shard:
             continue
-        f = "prop" if spec[0] == "prop" else f"{spec[2]}/{spec[3]}/n{len(spec[6])}"
+        if spec[0] == "prop":
+            f = "prop"
+        elif spec[0] == "wrap":
+            f = f"wrapped:{spec[1]}/{spec[3]}/n{len(spec[6])}"
+        elif spec[0] == "ilv":
+            f = f"in-flight:{spec[2]}+{spec[3]}{'/same-function' if spec[4] else ''}/{spec[5]}/k{spec[8]}"
+        else:
+            f = f"{spec[2]}/{spec[3]}/n{len(spec[6])}"
         fam[f] = fam.get(f, 0) + 1
         eval_program(env, spec, stats, on_violation, samples)
     return dict(shard=shard, stats=stats, per_key=per_key, kept=kept, samples=samples, families=fam)
@@ -1164,7 +1733,10 @@ def run(ctx):
         if not (r1["violates"] and r2["violates"] and r1["symptom"] == r2["symptom"] == v["replay"]["symptom"]):
             raise common.HarnessError(f"violation does not replay deterministically: {v['key']} {r1} {r2}")
         viols.append(Violation(key=v["key"], what=v["what"] + f"\n  ({per_key[v['key']]} instance(s) of this key in the run)", replay=v["replay"]))
-    samples = [s for o in outs for s in o["samples"]][:5]
+    allsamples = [s for o in outs for s in o["samples"]]
+    samples = allsamples[:3]
+    for marker in ("W = ", "_t_ = _R_"):
+        samples += [s for s in allsamples if marker in s["program"] and s not in samples][:1]
     x_n, x_viols = extra_part()
     xk = set()
     for v in x_viols:
@@ -1191,6 +1763,9 @@ def run(ctx):
         cases_binding=stats["cases_bind"],
         cases_nonbinding=stats["cases_nonbind"],
         cases_illtyped=stats["cases_ill"],
+        cases_in_flight_schedules=stats["cases_ilv"],
+        wrapped_reference_skipped=stats["wrapped_reference_skipped"],
+        partial_objects_rejected_at_decoration=stats["partial_objects_rejected_at_decoration"],
         illtyped_exception_types={k[len("illtyped_exc_"):]: v for k, v in stats.items() if k.startswith("illtyped_exc_")},
         program_families=dict(sorted(families.items())),
         violation_instances=dict(sorted(per_key.items())),
@@ -1199,7 +1774,16 @@ def run(ctx):
         f"{list(VARIANTS_TOP_QUICK if ctx.quick else VARIANTS_TOP_THOROUGH)} (= {b['N']} parameters); "
         f"B: all ordered tuples of distinct names from {NAMES} for <= {b['NN']} parameters x all (kinds, defaults) patterns x "
         + ("{all,none} annotated (1 parameter) / all annotated and ONE ill-typed list (wrong rank at the last parameter), raising body on the first binding recipe only, (2 parameters) x return annotation" if ctx.quick else "{all,none} annotated x return annotation (<= 2 parameters) / names without ('y','memos','bound'), all annotated with return annotation and ONE ill-typed list (wrong rank at the last parameter), raising body on the first binding recipe only, (3 parameters)")
-        + f" x function names {FNAMES} x 2 typecheckers, plain def; P: property get/set, setter parameter name from the alphabet. "
+        + f" x function names {FNAMES} x 2 typecheckers, plain def; P: property get/set, setter parameter name from the alphabet; "
+        f"W: the decorated object is a wrapper around a generated function: carriers {W_CARRIERS} (functools.wraps function wrapper, the same installed as a "
+        "method, callable instance after functools.update_wrapper, functools.partial with nothing / the first positional bound, bound-method object) x inner "
+        f"function {W_PRE} (raw / already jaxtyped with the same typechecker object / the other typechecker / typechecker=None) x kinds {W_KINDS} x all "
+        f"signature shapes with <= {b['WN']} parameters (x annotation pattern x return annotation x 2 typecheckers), and the shapes with {b['WN'] + 1} parameters "
+        f"for {list(W_TOP)} (lite call lists); excluded: with a return annotation, carriers that hand out a coroutine without being a coroutine function (callable instance around a coroutine function; bound-method / partial object of an ALREADY jaxtyped coroutine function), and typechecker=None around a generator function; "
+        f"I: two calls in flight on one thread, kind pairs (call A, call B, same decorated function) {list(I_PAIRS)} x descriptor {list(b['IDESC'])} x the 8 "
+        f"one-parameter shapes x annotated/not x return annotation x k in {list(b['IK'])} suspension points per body x 2 typecheckers; call A binds axis a=2, "
+        "call B a=3; per program EVERY interleaving of (call, k+1 resumptions) of A with those of B (20 for k=1, 70 for k=2; 3 / 4 against a def) x endings "
+        "{return, raise, close() at the last suspension}^2, each compared step by step with the same schedule on the undecorated functions. "
         "Per program: every binding recipe (pos/keyword/default per parameter, 0-2 extra positionals, extra keywords {}, {zz}, {zz,zy}, "
         "{the wrapper's output name}, {a positional-only parameter's name}, {T0|default0}) x body mode {return, raise}; non-binding lists "
         "{missing, unexpected keyword, too many positionals, multiple values, positional-only by keyword}; ill-typed lists {wrong rank at each annotated "
@@ -1215,10 +1799,17 @@ def run(ctx):
             "the undecorated callable built from the same source text is the reference (differential oracle); the recorder body `_R_(locals())` observes every argument object",
             "well-typed = every annotated argument and the result are distinct Duck((2,)) float32 arrays against Float[Duck,'a']; ill-typed = wrong rank, or a second size for axis a",
             "typeguard.typechecked (2.x) and beartype.beartype as installed in /venv are the two typecheckers",
+            "family W: the wrapper object handed to jaxtyped is the reference; where the wrapped function is itself jaxtyped the reference contains code under test: cases on which "
+            "that reference misbehaves are skipped and counted (wrapped_reference_skipped) - the inner decoration of the same shape is judged by family A",
+            "family I: coroutines / generators are driven by hand with next() on one thread, which is exactly what an event loop does between two awaits; a body only runs inside a step of its own call",
         ],
         notes=[
             "don't-care: exception TYPE on ill-typed arguments (only 'body not run and no result handed back' is required; types are counted in illtyped_exception_types)",
             "don't-care: order of **kwargs keys; inspect.iscoroutinefunction / isgeneratorfunction of the wrapper; attributes other than __name__, __qualname__, __doc__, __module__, signature",
+            "don't-care: jaxtyped raising TypeError when handed a functools.partial OBJECT (it has no __annotations__; counted in partial_objects_rejected_at_decoration); when decoration succeeds all call cases are judged",
+            "don't-care (observed, not asserted): decorating the jaxtyped wrapper of a coroutine function that has a return annotation a second time (directly, or its bound-method object) makes every call raise TypeCheckError - "
+            "the first wrapper is no coroutine function for inspect.iscoroutinefunction, so the second one checks the coroutine object against the annotation; the statement speaks of coroutine functions only",
+            "don't-care: attributes the undecorated callable does not have (a partial object has no __name__); for a non-binding call through a wrapper whether the wrapper's own body ran (only TypeError and 'wrapped body not run' are required)",
             "don't-care: for coroutine functions any awaitable (for generator functions any iterable) may be handed back as long as driving it executes the body once and yields the body's result object",
         ],
     )
@@ -1232,8 +1823,8 @@ def replay(rep):
     env = _Env()
     spec = spec_from_json(rep["spec"])
     case = dict(rep["case"])
-    out = dict(program=program_source(spec), typechecker=spec[2] if spec[0] == "prop" else spec[5], case=case, expected_symptom=rep.get("symptom"))
-    prog = _Program(env, spec)
+    out = dict(program=program_source(spec), typechecker=spec_tc(spec), case=case, expected_symptom=rep.get("symptom"))
+    prog = make_program(env, spec)
     try:
         prog.decorate()
     except Exception as e:  # noqa: BLE001
